@@ -157,6 +157,10 @@ OptRecIsOpt ==
     (Running /\ t = 2 * M - 1) =>
         LET f == OptRec(C, beta, N, M) IN \A T \in M..N : f[T] = Opt(C, beta, T, M)
 
+OptSeqIsOptRec ==
+    (Running /\ t = 2 * M - 1) =>
+        LET f == OptRec(C, beta, N, M) q == OptSeq(C, beta, N, M) IN \A T \in M..N : q[T + 1] = f[T]
+
 \* No start that some later end still needs has been removed.
 OptLast(f, T) == {s \in LastStarts(T, M) : f[s] + C[<<s, T>>] + beta = f[T]}
 Offered       == {s \in 0..(t - M) : s = 0 \/ s >= M}
